@@ -51,7 +51,10 @@ SMALL = dict(
     addr=[(0, 0, 1), (0, 0, 10), (1, 1, 10), (0, 0, 11), (1, 0, 11), (3, 3, 11)],
     covs={'cA': [(1, 1, 5, 5)],                       # inside one meta tile of level 11, edges inside tiles
           'cB': [(8, 8, 16, 16)],                     # edges on meta tile borders: neighbours only touch
-          'cL': [(0, 0, 4, 16), (0, 12, 16, 16)]},    # L-shaped union (geometry coverage)
+          'cL': [(0, 0, 4, 16), (0, 12, 16, 16)],     # L-shaped union (geometry coverage)
+          # an L whose bounding box is the whole grid and whose arms end three units beside the meta tile of (0, 0, 11):
+          # nearer than the meta buffer of the cache
+          'cN': [(11, 0, 16, 16), (0, 13, 16, 16)]},
 )
 
 
@@ -243,7 +246,7 @@ class Site(object):
             'grids': {'lat': {'srs': 'EPSG:3857', 'bbox': [0, 0, WORLD * UNIT, WORLD * UNIT], 'res': RES, 'origin': 'll',
                               'tile_size': [256, 256]}},
             'caches': {'c': {'grids': ['lat'], 'sources': [], 'format': 'image/png', 'meta_size': [META, META],
-                             'meta_buffer': 0,
+                             'meta_buffer': 200,      # (real caches of WMS sources have a buffer - 80 by default: the clean-up walk goes by unbuffered meta tiles)
                              'cache': {'type': 'file', 'directory': os.path.join(self.dir, 'unused')}}},
         }
         self.pc = ProxyConfiguration(conf, conf_base_dir=self.dir, seed=True)
@@ -1112,6 +1115,17 @@ def _drive_real(ctx, thorough, bks, feats, feats_big, classes, class_of_rec, sit
                 events, info = run_case(sites[b.name], case, SMALL)
                 ctx.count(('sys', b.name, ci, ti))
                 runs.append((case, events, info))
+    # directed (always run): an expired tile in a meta tile three units beside the coverage cN - nearer than the meta buffer of the cache
+    near = [t for t in all_tasks if t['cov'] == 'cN' and 11 in t['levels'] and t['mode'] == 'before' and not t['dry'] and not t.get('refresh')][:2]
+    for b in bks:
+        for t in near:
+            case = {'backend': b.name, 'features': feats[b.name], 'stores': [[1, 0, 11, 'before']], 'junk': list(JUNK),
+                    'task': dict(t, levels=sorted(t['levels'])), 'variant': 1}
+            events, info = run_case(sites[b.name], case, SMALL)
+            ctx.count(('near', b.name, json.dumps(dict(t, levels=sorted(t['levels'])), sort_keys=True)))
+            runs.append((case, events, info))
+    if not near:
+        raise tlc.MachineryError('no clean-up task with the coverage cN in the task space')
     nb = verdicts(ctx, 'sys', runs, SMALL, covs, 'systematic single-tile case')
     ctx.log('systematic cases: %d real cleanup runs validated by TLC (%d violate or are rejected)' % (len(runs), nb))
     for case, events, info in runs:
